@@ -87,6 +87,34 @@ Fixpoint stable_suffix (st : store) (k : key) (t : ts) (b : list cmd) : bool :=
   | c :: r => safe_step st c k t && stable_suffix (fst (step st c)) k t r
   end.
 
+(* per-key refinement: only the pairs a command applies to key k matter for reads of k *)
+Definition key_pairs (c : cmd) (k : key) : list (ts * ts) :=
+  match c with
+  | Commit ks s cm => if existsb (N.eqb k) ks then [(s, cm)] else []
+  | ResolveLock s0 e0 s cm => if in_range s0 e0 k && (0 <? cm) then [(s, cm)] else []
+  | BatchResolveLock s0 e0 infos => if in_range s0 e0 k then filter (fun p => 0 <? snd p) infos else []
+  | _ => []
+  end.
+Definition safe_step_k (st : store) (c : cmd) (k : key) (t : ts) : bool :=
+  gc_ok t c &&
+  match lock_of st k with
+  | Some l => negb (data_lock l) || pairs_above t (l_start l) (key_pairs c k)
+  | None => true
+  end.
+Fixpoint stable_suffix_k (st : store) (k : key) (t : ts) (b : list cmd) : bool :=
+  match b with
+  | [] => true
+  | c :: r => safe_step_k st c k t && stable_suffix_k (fst (step st c)) k t r
+  end.
+(* the command as far as key k is concerned *)
+Definition restrict (c : cmd) (k : key) : cmd :=
+  match c with
+  | Commit ks _ _ => if existsb (N.eqb k) ks then c else ScanLock 0 0 0
+  | ResolveLock s0 e0 _ _ => if in_range s0 e0 k then c else ScanLock 0 0 0
+  | BatchResolveLock s0 e0 _ => if in_range s0 e0 k then c else ScanLock 0 0 0
+  | _ => c
+  end.
+
 (* the client-side rules that give stability for a read of k at t served on st, b = what follows:
    (gc)  no GC with a safe point above t;
    (pw)  a prewrite of k after the read either carries min_commit_ts > t and its transaction commits at or
